@@ -1,6 +1,7 @@
 import KoordVerif.Common.Proto
 import KoordVerif.Model.C15
 import KoordVerif.Model.C15Inf
+import KoordVerif.Model.C15Race
 /-
 Driver for C15.  One case = one history.  Op lines (integer tokens, `_` = resource key absent / no label):
   add <name> <parentCode> <isParentCode> <tree> <forceCode> <rootCode> <swShape> <listErr>
@@ -20,6 +21,11 @@ The codes are RAW shapes of the object (Model: `Raw`, `decodeQI`, `decodeOp`): p
                            unfiltered handler registration; after every request: `res`, `rep0` + dump, `rep1` + dump;
                            `compact` and `try` work here too)
   rep <0|1>               (two-replica mode: the replica that handles the following requests)
+  racedel <name> <listErr> <npods> (...)*   followed by ONE more line = the concurrent activity:
+      add / upd / del (layouts above) or `evadd` (layout of add: informer OnQuotaAdd of that object).
+      One-replica mode only.  The delete's pod List launches the other request (Model/C15Race.lean: `raceExec .atomic`
+      with `harnessSched`); prints `res <delete>`, `overlap <0|1>` when the delete reached its pod list (1 = the other
+      request ran while the list was in flight), `res <other>` (`ev` for an informer event), then the dump.
 After every op: `res <0|1>`, then the recorded topology:
   `q <name> <parent> <isParent> <tree> <force> <treeRoot> <min>*3 <max>*3` (by name),
   `h <key> <child>*` (by key, children sorted), `n <ns> <quota>` (by ns).
@@ -151,10 +157,40 @@ def showSys (compact : Bool) (r : Sys × Bool) : List String :=
 
 /-- `compact` switches to one-line dumps; `try <request>` evaluates a request on the current state
     WITHOUT committing it (the harness rebuilds the real topology from the committed prefix). -/
+def parseOther (ts : List String) : Option Other :=
+  match ts with
+  | "evadd" :: rest =>
+    match parseReq rest with
+    | some (r, _, _) => some (.ev (.add (decodeQI r)))
+    | none => none
+  | ts => (parseToks ts).map .req
+
+/-- the race step as the harness forces it (the code's lock shape: one section from the check to the removal). -/
+def showRace (s : Topo) (n : Nat) (lp : Bool) (o : Other) : Topo × List String :=
+  let run := raceExec dims .atomic n lp o
+  let c1 := run { s := s } (harnessSched.take 2)
+  let c2 := run c1 ((harnessSched.drop 2).take 1)
+  let c3 := run c2 (harnessSched.drop 3)
+  let ov := if c1.pc == 2 then [s!"overlap {b2i c2.ores.isSome}"] else []
+  let ot := match o with
+    | .ev _ => "ev"
+    | .req _ => s!"res {b2i (c3.ores.getD false)}"
+  (c3.s, [s!"res {b2i (c3.dres.getD false)}"] ++ ov ++ [ot] ++ dump c3.s)
+
 def runLines : DS → List String → List String
   | _, [] => []
   | st, l :: ls =>
     match toks l with
+    | "racedel" :: n :: le :: rest =>
+      match ls with
+      | [] => ["bad-op"]
+      | l2 :: ls2 =>
+        match nat? n, nat? le, parsePods rest, parseOther (toks l2) with
+        | some n, some le, some (pods, []), some o =>
+          if st.two then "bad-op" :: runLines st ls2 else
+          let r := showRace st.s n (le ≠ 0 || labelPods pods n) o
+          r.2 ++ runLines { st with s := r.1 } ls2
+        | _, _, _, _ => "bad-op" :: runLines st ls2
     | ["compact"] => runLines { st with compact := true } ls
     | ["echo", v] => runLines { st with echo := v != "0" } ls
     | ["two"] => runLines { st with two := true } ls
